@@ -616,7 +616,12 @@ func (e *Engine) mergeStates(sts []*State) *State {
 	}
 	for k := range mk {
 		k := k
-		out.MapVer[k] = mt(func(s *State) *Term { return s.MapVer[k] })
+		out.MapVer[k] = mt(func(s *State) *Term {
+			if v := s.MapVer[k]; v != nil {
+				return v
+			}
+			return e.tb.Var("MV0:"+k, BV64) // a path that never touched maps of this type still has the entry version
+		})
 	}
 	// locals
 	lk := map[*ssa.Alloc]bool{}
